@@ -11,10 +11,22 @@ the rounding tag sits in the *representation*.  `scaled/convert_operator.h` eval
 `num_traits/scale.h`), i.e. the *tagged division* of C08 by `2^k`, where the power is
 `decltype(s >> constant<…>){1} << constant<k>` and therefore has the promoted representation type.
 `scale<k>` for `k ≥ 0` is `from_rep<rounding_integer<Rep, Tag>>(scale<k, 2, Rep>(rep))`, which keeps the promoted type of the product.
+
+Since the repair of `C09.wrapped_power_is_int_min` the divisor of `default_scale<-k>` is a `constexpr`
+variable on which `static_assert(0 < divisor)` is made: an undefined shift in its evaluation and the
+non-positive powers (`1 << digits` is the most negative number of a signed type) are ill-formed.
+`convertOrig` is the conversion as found (the divisor unchecked).
 Lean core only.
 -/
 namespace Cnl.RoundWrap
 open Cnl
+
+/-- the tagged division by the power `pw`, converted to the destination representation -/
+def divideBy (mode : RdMode) (S D : IntTy) (v : Int) (pw : TV) : Res TV := do
+  let q ← Rounding.binOp intOps mode .div (.int S, v) (.int pw.1, pw.2)
+  match q.1 with
+  | .int T => pure (Cnl.convert D (T, q.2))
+  | _ => .ill "unexpected representation"
 
 /-- result: representation type and value of the destination `rounding_integer<D, Tag>` -/
 def convert (mode : RdMode) (S : IntTy) (eS : Int) (D : IntTy) (eD : Int) (v : Int) : Res TV :=
@@ -22,13 +34,25 @@ def convert (mode : RdMode) (S : IntTy) (eS : Int) (D : IntTy) (eD : Int) (v : I
     -- scale up in the (promoted) representation (`from_rep` adopts the promoted type), then into the destination
     let p ← scaleInt (eS - eD) 2 (S, v)
     pure (Cnl.convert D p)
+  else
+    let k := (eD - eS).toNat
+    let P := promote S
+    -- `constexpr auto divisor = power_value<rounding_integer<S, Tag>, k, 2>()`
+    match cBin .shl (promote P, 1) (i32, (k : Int)) with
+    | .ok pw =>
+      if 0 < pw.2 then divideBy mode S D v pw
+      else .ill "scale: attempted operation will result in overflow"
+    | _ => .ill "scale: the divisor is not a constant expression"
+
+/-- the conversion **as found**: the divisor `1 << k` is used whatever its value -/
+def convertOrig (mode : RdMode) (S : IntTy) (eS : Int) (D : IntTy) (eD : Int) (v : Int) : Res TV :=
+  if eD ≤ eS then do
+    let p ← scaleIntOrig (eS - eD) 2 (S, v)
+    pure (Cnl.convert D p)
   else do
     let k := (eD - eS).toNat
     let P := promote S
     let pw ← cBin .shl (promote P, 1) (i32, (k : Int))
-    let q ← Rounding.binOp intOps mode .div (.int S, v) (.int pw.1, pw.2)
-    match q.1 with
-    | .int T => pure (Cnl.convert D (T, q.2))
-    | _ => .ill "unexpected representation"
+    divideBy mode S D v pw
 
 end Cnl.RoundWrap
